@@ -832,3 +832,93 @@ func (c *Ctx) keepSummary(a *retryAnchors, g *ssa.Function) *keepSum {
 	}
 	return nil
 }
+
+// ruleWrapKeepsHandle: wrapErrorWithRetry loses the handle only for causes that wrapErrorImpl passes through unwrapped;
+// that set must be {nil, io.EOF} — a sentinel such as ErrClosedTransport passing through would make every
+// connection-closed failure non-retryable.
+func (c *Ctx) ruleWrapKeepsHandle(rr *RuleRep) {
+	impl := c.Func("wrapErrorImpl")
+	wr := c.Func("wrapErrorWithRetry")
+	if impl == nil || wr == nil {
+		rr.Lost("wrapErrorImpl/wrapErrorWithRetry", "not found")
+		return
+	}
+	bad := false
+	for _, ret := range returnsOf(impl) {
+		v := c.Resolve(ret.Results[0])
+		if isNilConst(v) || c.globalLoadName(v) == "io.EOF" {
+			// only on the identity edge
+			continue
+		}
+		if al, ok := v.(*ssa.Alloc); ok && typeName(al.Type()) == "Error" {
+			continue
+		}
+		bad = true
+		rr.Bad("wrapErrorImpl/pass-through", ret.Pos(), "wrapErrorImpl passes %s through unwrapped: wrapErrorWithRetry then returns it without a retry handle, so a request interrupted by this cause is never retransmitted", describeVal(v))
+	}
+	// io.EOF / nil pass-through only on identity comparison edges
+	for _, ret := range returnsOf(impl) {
+		v := c.Resolve(ret.Results[0])
+		if c.globalLoadName(v) != "io.EOF" {
+			continue
+		}
+		ok := false
+		for _, b := range impl.Blocks {
+			iff := blockIf(b)
+			if iff == nil {
+				continue
+			}
+			bin, isB := iff.Cond.(*ssa.BinOp)
+			if isB && bin.Op == token.EQL && (c.globalLoadName(bin.X) == "io.EOF" || c.globalLoadName(bin.Y) == "io.EOF") && DominatedByEdge(impl, ret, b, 0, PathQ{}) {
+				ok = true
+			}
+		}
+		if !ok {
+			bad = true
+			rr.Bad("wrapErrorImpl/eof", ret.Pos(), "io.EOF is returned (dropping the retry handle and the cause chain) for errors that are not identical to io.EOF")
+		}
+	}
+	has := false
+	for _, ret := range returnsOf(wr) {
+		if al, ok := c.Resolve(ret.Results[0]).(*ssa.Alloc); ok && typeName(al.Type()) == "errorWithRetry" {
+			has = true
+		}
+	}
+	if !has {
+		bad = true
+		rr.Bad("wrapErrorWithRetry/handle", wr.Pos(), "wrapErrorWithRetry never attaches the retry handle")
+	}
+	if !bad {
+		rr.OK("wrapErrorWithRetry/pass-through", wr.Pos(), "the handle is dropped only for nil and io.EOF causes")
+	}
+}
+
+// ruleTaskContext: tasks run under context.Background(), not under a caller's context: otherwise, once that context is
+// cancelled, every later failure takes the `user cancelled; don't queue` branch and the request is dropped.
+func (c *Ctx) ruleTaskContext(rr *RuleRep) {
+	a := c.retryAnchors()
+	g := c.taskGoroutine(a)
+	if g == nil {
+		rr.Lost("task-goroutine", "not found")
+		return
+	}
+	eachInstr(g, func(in ssa.Instruction) {
+		k, ok := in.(*ssa.Call)
+		if !ok || k.Call.IsInvoke() || k.Call.StaticCallee() != nil || len(k.Call.Args) != 2 {
+			return
+		}
+		ld, ok := k.Call.Value.(*ssa.UnOp)
+		if !ok {
+			return
+		}
+		if ia, ok := ld.X.(*ssa.IndexAddr); !ok || func() bool { _, isTQ := isLoadOfField(ia.X, a.TaskQueue); return !isTQ }() {
+			return
+		}
+		call, _ := c.asCall(k.Call.Args[0])
+		if call != nil && isStdCall(&call.Call, "context", "Background") {
+			rr.OK(FuncName(g)+"/task-ctx", in.Pos(), "tasks run under context.Background()")
+		} else {
+			rr.Bad(FuncName(g)+"/task-ctx", in.Pos(), "tasks run under %s instead of context.Background(): when that context is cancelled (e.g. the caller's Connect context after connecting), failed requests take the user-cancelled branch and are dropped instead of being queued for retry", describeVal(c.Resolve(k.Call.Args[0])))
+		}
+	})
+}
